@@ -1,5 +1,8 @@
 """C13 — direct Fourier transform, its preload variant and adjoint; interferometer mapping-formalism
 normal equations."""
+import importlib
+import inspect
+
 import numpy as np
 from hypothesis import strategies as st
 
@@ -35,10 +38,20 @@ RULE = (
     "generic (first column always antisymmetric, second symmetric), visibilities with exactly zero real or imaginary "
     "parts: transformed matrix, visibilities_from of each column, image_from, util kernels, the data-vector kernel, "
     "and D / F of inversions fed (i) through the transformer and (ii) with a preloaded transformed matrix whose "
-    "antisymmetric columns are purely imaginary and symmetric columns purely real by construction. Non-trivial = at "
+    "antisymmetric columns are purely imaginary and symmetric columns purely real by construction. state: one "
+    "Visibilities object through a generated sequence - read cached / derived quantities (amplitudes, phases, in_array, "
+    "ordered_1d, in_grid, scaled_maxima), image_from, in-place edits (integer index, boolean index, slice; zero or "
+    "arbitrary values), image_from again, derived objects (scalar multiple, copy, slice) edited in turn - every "
+    "image_from result and, at the end, every object created against Re(A^H V) of the values that object holds at that "
+    "moment (np.array of the object); a VisibilitiesNoiseMap (and the data) edited in place after being read / after a "
+    "first inversion, plus derived noise maps (multiple, copy-then-edit), then D and F of a new inversion "
+    "(DatasetInterface, or an Interferometer built before the edit) against the Gram products of the current values. "
+    "Direct calls of internal kernels are bound to the kernel's current signature first; a kernel that is missing or "
+    "cannot be bound is labelled util-signature-changed and that comparison is skipped. Non-trivial = at "
     "least two distinct non-zero baselines and a mask with both masked and unmasked pixels (matrix: additionally a "
     "negative entry; family: >= 2 distinct layouts and a non-zero baseline; cancel: a non-zero baseline and entries "
-    "with Re == 0 != Im and with Im == 0 != Re present); distinct = SHA-1 of the canonical case."
+    "with Re == 0 != Im and with Im == 0 != Re present; state: an in-place edit that changed values after a read or an "
+    "image_from, and a non-zero baseline); distinct = SHA-1 of the canonical case."
 )
 ASSUMPTIONS = [
     "a stand-in `pylops.LinearOperator` base class (vp/stubs/pylops.py) is installed so TransformerDFT can be constructed; the DFT code never calls into it",
@@ -47,6 +60,8 @@ ASSUMPTIONS = [
     "the mappers' own mapping_matrix is taken as input for the inversion sub-check (its content belongs to C06)",
     "exact cancellation in the cancel sub-check relies on IEEE sign symmetry (x*u + y*v, cos even, sin odd) and on the closed-form centres being exactly negated under the mirror at zero origin (verified for every frame up to 6x6); the class frequency is reported by the T:has-Re==0!=Im / T:has-Im==0!=Re labels, and the preloaded route does not depend on it",
     "state shared between transformers can only be observed within one process: the family sub-check puts the whole sequence inside one case so a failing case replays in a fresh process; a failure reported by another sub-check under such a change may depend on earlier cases of the same worker",
+    "internal kernels (autoarray.operators.transformer_util, inversion_interferometer_util) are not part of the property's public surface: their direct comparisons are extra sensitivity only and are skipped (label util-signature-changed, counted in the label histogram) when the kernel cannot be called with the keyword names the check knows; TransformerDFT methods and inversion quantities decide the property",
+    "the state sub-check takes np.array(object) as the values an object currently holds; it does not judge the semantics of __setitem__ / slicing (views) themselves, nor the staleness of the object's own cached attributes (amplitudes, ordered_1d) - only what image_from and the inversion make of the object",
     "TransformerNUFFT, the w-tilde interferometer path and the PyLops linear-operator inversion are out of scope (external library / stubbed code)",
 ]
 TECHNIQUE = ("property-based testing (Hypothesis) against a dense closed-form Fourier operator in numpy, with "
@@ -176,6 +191,46 @@ def _setup(case, ctx):
     return m, uv, mask, grid_ref, a, nt
 
 
+def _util(ctx, module, name, **kwargs):
+    """Direct call of an internal kernel by keyword.  Internal kernels may be refactored freely: if the function is
+    gone or the call cannot be bound to its current signature (TypeError at the call boundary), the case is labelled
+    `util-signature-changed` and (False, None) is returned so the caller skips that comparison - the public-API
+    comparisons decide the property.  Anything raised INSIDE the kernel propagates as usual."""
+    fn = getattr(module, name, None) if module is not None else None
+    if fn is None:
+        ctx.label("util-signature-changed", "util-signature-changed:%s(missing)" % name)
+        return False, None
+    try:
+        inspect.signature(fn).bind(**kwargs)
+    except TypeError:
+        ctx.label("util-signature-changed", "util-signature-changed:%s" % name)
+        return False, None
+    except ValueError:  # signature not introspectable: fall through to the call
+        pass
+    try:
+        return True, fn(**kwargs)
+    except TypeError as e:
+        tb = e.__traceback__
+        if tb is not None and tb.tb_next is None:  # raised by the call itself, no frame of the kernel was entered
+            ctx.label("util-signature-changed", "util-signature-changed:%s" % name)
+            return False, None
+        raise
+
+
+def _util_close(ctx, module, name, want, key, atol, what, **kwargs):
+    ok, got = _util(ctx, module, name, **kwargs)
+    if ok:
+        ctx.close(got, want, key, atol=atol, what=what)
+
+
+def _util_module(ctx, path):
+    try:
+        return importlib.import_module(path)
+    except ImportError:
+        ctx.label("util-signature-changed", "util-signature-changed:%s(module missing)" % path)
+        return None
+
+
 def _transformer(ctx, aa, uv, mask, preload):
     path = "preload" if preload else "direct"
     t = ctx.impl("construct/%s" % path, aa.TransformerDFT, uv_wavelengths=uv.copy(), real_space_mask=mask,
@@ -255,19 +310,20 @@ def body_transform(case, ctx):
                   what="visibilities with vs without preloaded tables")
 
     # util functions called directly with the reference grid (independent of Mask2D / Grid2D code)
-    tu = aa.util.transformer
+    tu = _util_module(ctx, "autoarray.operators.transformer_util")
     phase = 2.0 * np.pi * (np.outer(grid_ref[:, 1], uv[:, 0]) + np.outer(grid_ref[:, 0], uv[:, 1]))  # (N, K)
-    pr = tu.preload_real_transforms(grid_radians=grid_ref.copy(), uv_wavelengths=uv.copy())
-    pi_ = tu.preload_imag_transforms(grid_radians=grid_ref.copy(), uv_wavelengths=uv.copy())
-    ctx.close(pr, np.cos(phase), "util/preload_real_transforms", atol=1e-9, what="cosine table vs cos(2 pi (x u + y v))")
-    ctx.close(pi_, -np.sin(phase), "util/preload_imag_transforms", atol=1e-9, what="sine table vs -sin(2 pi (x u + y v))")
-    ctx.close(tu.visibilities_jit(image_1d=img.copy(), grid_radians=grid_ref.copy(), uv_wavelengths=uv.copy()), want_vis,
-              "util/visibilities_jit", atol=1e-9 * s_img, what="visibilities_jit vs A I")
-    ctx.close(tu.visibilities_via_preload_jit_from(image_1d=img.copy(), preloaded_reals=np.cos(phase), preloaded_imags=-np.sin(phase)),
-              want_vis, "util/visibilities_via_preload_jit_from", atol=1e-9 * s_img, what="preload sum (reference tables) vs A I")
-    ctx.close(tu.image_via_jit_from(n_pixels=len(img), grid_radians=grid_ref.copy(), uv_wavelengths=uv.copy(),
-                                    visibilities=np.stack([vis.real, vis.imag], axis=-1)),
-              want_img, "util/image_via_jit_from", atol=1e-9 * s_vis, what="image_via_jit_from vs Re(A^H V)")
+    _util_close(ctx, tu, "preload_real_transforms", np.cos(phase), "util/preload_real_transforms", 1e-9,
+                "cosine table vs cos(2 pi (x u + y v))", grid_radians=grid_ref.copy(), uv_wavelengths=uv.copy())
+    _util_close(ctx, tu, "preload_imag_transforms", -np.sin(phase), "util/preload_imag_transforms", 1e-9,
+                "sine table vs -sin(2 pi (x u + y v))", grid_radians=grid_ref.copy(), uv_wavelengths=uv.copy())
+    _util_close(ctx, tu, "visibilities_jit", want_vis, "util/visibilities_jit", 1e-9 * s_img, "visibilities_jit vs A I",
+                image_1d=img.copy(), grid_radians=grid_ref.copy(), uv_wavelengths=uv.copy())
+    _util_close(ctx, tu, "visibilities_via_preload_jit_from", want_vis, "util/visibilities_via_preload_jit_from", 1e-9 * s_img,
+                "preload sum (reference tables) vs A I", image_1d=img.copy(), preloaded_reals=np.cos(phase),
+                preloaded_imags=-np.sin(phase))
+    _util_close(ctx, tu, "image_via_jit_from", want_img, "util/image_via_jit_from", 1e-9 * s_vis, "image_via_jit_from vs Re(A^H V)",
+                n_pixels=len(img), grid_radians=grid_ref.copy(), uv_wavelengths=uv.copy(),
+                visibilities=np.stack([vis.real, vis.imag], axis=-1))
 
 
 # ---------------------------------------------------------------------------------------------
@@ -300,7 +356,7 @@ def body_matrix(case, ctx):
     ctx.nt(nt and has_neg)
     want = a @ mm
     tol = 1e-9 * (float(np.abs(mm).sum(axis=0).max(initial=0.0)) + FLOOR)
-    tu = aa.util.transformer
+    tu = _util_module(ctx, "autoarray.operators.transformer_util")
     phase = 2.0 * np.pi * (np.outer(grid_ref[:, 1], uv[:, 0]) + np.outer(grid_ref[:, 0], uv[:, 1]))
     got = {}
     for preload in (True, False):
@@ -313,13 +369,15 @@ def body_matrix(case, ctx):
         ctx.close(got["preload"], got["direct"], "transform_mapping_matrix/preload-vs-direct", atol=1e-3 * tol,
                   what="transformed mapping matrix with vs without preloaded tables")
     # util functions directly with the reference grid / reference tables
-    _matrix_transform_check(ctx, lambda x: tu.transformed_mapping_matrix_jit(mapping_matrix=x, grid_radians=grid_ref.copy(),
-                                                                             uv_wavelengths=uv.copy()),
-                            mm, want, tol, "util/transformed_mapping_matrix_jit", "direct", "util.transformer.transformed_mapping_matrix_jit")
-    _matrix_transform_check(ctx, lambda x: tu.transformed_mapping_matrix_via_preload_jit_from(
-        mapping_matrix=x, preloaded_reals=np.cos(phase), preloaded_imags=-np.sin(phase)),
-                            mm, want, tol, "util/transformed_mapping_matrix_via_preload_jit_from", "preload",
-                            "util.transformer.transformed_mapping_matrix_via_preload_jit_from (reference tables)")
+    kw_d = dict(grid_radians=grid_ref.copy(), uv_wavelengths=uv.copy())
+    kw_p = dict(preloaded_reals=np.cos(phase), preloaded_imags=-np.sin(phase))
+    if _util(ctx, tu, "transformed_mapping_matrix_jit", mapping_matrix=mm.copy(), **kw_d)[0]:
+        _matrix_transform_check(ctx, lambda x: tu.transformed_mapping_matrix_jit(mapping_matrix=x, **kw_d), mm, want, tol,
+                                "util/transformed_mapping_matrix_jit", "direct", "util.transformer.transformed_mapping_matrix_jit")
+    if _util(ctx, tu, "transformed_mapping_matrix_via_preload_jit_from", mapping_matrix=mm.copy(), **kw_p)[0]:
+        _matrix_transform_check(ctx, lambda x: tu.transformed_mapping_matrix_via_preload_jit_from(mapping_matrix=x, **kw_p),
+                                mm, want, tol, "util/transformed_mapping_matrix_via_preload_jit_from", "preload",
+                                "util.transformer.transformed_mapping_matrix_via_preload_jit_from (reference tables)")
 
 
 # ---------------------------------------------------------------------------------------------
@@ -632,8 +690,8 @@ def _zero_pattern_labels(ctx, t, tag):
 
 def body_cancel(case, ctx):
     import autoarray as aa
-    from autoarray.inversion.inversion.interferometer import inversion_interferometer_util as iiu
     from autoarray.inversion.inversion.interferometer.mapping import InversionInterferometerMapping
+    iiu = _util_module(ctx, "autoarray.inversion.inversion.interferometer.inversion_interferometer_util")
     m, uv, mask, grid_ref, a, _ = _setup(case, ctx)
     ctx.label("mirror:%s" % case["mirror"])
     for ck in set(case["col_kinds"]):
@@ -650,7 +708,7 @@ def body_cancel(case, ctx):
     tol = 1e-9 * (float(np.abs(mm).sum(axis=0).max(initial=0.0)) + FLOOR)
     s_vis = float((np.abs(vis.real) + np.abs(vis.imag)).sum()) + FLOOR
     want_img = dft.adjoint_real(a, vis)
-    tu = aa.util.transformer
+    tu = _util_module(ctx, "autoarray.operators.transformer_util")
     phase = 2.0 * np.pi * (np.outer(grid_ref[:, 1], uv[:, 0]) + np.outer(grid_ref[:, 0], uv[:, 1]))
 
     # (a) transformer outputs, both paths
@@ -671,14 +729,14 @@ def body_cancel(case, ctx):
                   what="image_from(V) vs Re(A^H V), visibilities with exactly zero real / imaginary parts (%s)" % path)
     re0, im0 = _zero_pattern_labels(ctx, natural, "T")
     # (b) util kernels with the reference grid / tables
-    ctx.close(tu.transformed_mapping_matrix_jit(mapping_matrix=mm.copy(), grid_radians=grid_ref.copy(), uv_wavelengths=uv.copy()),
-              want, "cancel/util/transformed_mapping_matrix_jit", atol=tol, what="transformed_mapping_matrix_jit vs A M")
-    ctx.close(tu.transformed_mapping_matrix_via_preload_jit_from(mapping_matrix=mm.copy(), preloaded_reals=np.cos(phase),
-                                                                 preloaded_imags=-np.sin(phase)),
-              want, "cancel/util/transformed_mapping_matrix_via_preload_jit_from", atol=tol, what="preload kernel vs A M")
-    ctx.close(tu.image_via_jit_from(n_pixels=n, grid_radians=grid_ref.copy(), uv_wavelengths=uv.copy(),
-                                    visibilities=np.stack([vis.real, vis.imag], axis=-1)),
-              want_img, "cancel/util/image_via_jit_from", atol=1e-9 * s_vis, what="image_via_jit_from vs Re(A^H V)")
+    _util_close(ctx, tu, "transformed_mapping_matrix_jit", want, "cancel/util/transformed_mapping_matrix_jit", tol,
+                "transformed_mapping_matrix_jit vs A M", mapping_matrix=mm.copy(), grid_radians=grid_ref.copy(), uv_wavelengths=uv.copy())
+    _util_close(ctx, tu, "transformed_mapping_matrix_via_preload_jit_from", want,
+                "cancel/util/transformed_mapping_matrix_via_preload_jit_from", tol, "preload kernel vs A M",
+                mapping_matrix=mm.copy(), preloaded_reals=np.cos(phase), preloaded_imags=-np.sin(phase))
+    _util_close(ctx, tu, "image_via_jit_from", want_img, "cancel/util/image_via_jit_from", 1e-9 * s_vis,
+                "image_via_jit_from vs Re(A^H V)", n_pixels=n, grid_radians=grid_ref.copy(), uv_wavelengths=uv.copy(),
+                visibilities=np.stack([vis.real, vis.imag], axis=-1))
 
     # (c) a transformed matrix with the parities imposed exactly (a valid complex matrix in its own right): antisymmetric
     # columns purely imaginary, symmetric columns purely real, zero columns 0+0j
@@ -694,16 +752,14 @@ def body_cancel(case, ctx):
     nonzero_b = any(u != 0.0 or v != 0.0 for u, v in uv)
     ctx.nt(nonzero_b and (re0 or f_re0) and (im0 or f_im0))
     d_f, _, sd_f, _ = dft.normal_equations(t_forced, vis, noise)
-    ctx.close(iiu.data_vector_via_transformed_mapping_matrix_from(transformed_mapping_matrix=t_forced.copy(),
-                                                                  visibilities=vis.copy(), noise_map=noise.copy()),
-              d_f, "cancel/util/data_vector", atol=1e-9 * (sd_f + FLOOR),
-              what="data_vector_via_transformed_mapping_matrix_from on a matrix with purely real / purely imaginary columns")
+    _util_close(ctx, iiu, "data_vector_via_transformed_mapping_matrix_from", d_f, "cancel/util/data_vector", 1e-9 * (sd_f + FLOOR),
+                "data_vector_via_transformed_mapping_matrix_from on a matrix with purely real / purely imaginary columns",
+                transformed_mapping_matrix=t_forced.copy(), visibilities=vis.copy(), noise_map=noise.copy())
     if natural is not None and natural.shape == want.shape:
         d_n, _, sd_n, _ = dft.normal_equations(natural, vis, noise)
-        ctx.close(iiu.data_vector_via_transformed_mapping_matrix_from(transformed_mapping_matrix=natural.copy(),
-                                                                      visibilities=vis.copy(), noise_map=noise.copy()),
-                  d_n, "cancel/util/data_vector", atol=1e-9 * (sd_n + FLOOR),
-                  what="data_vector_via_transformed_mapping_matrix_from on the transformer's own output")
+        _util_close(ctx, iiu, "data_vector_via_transformed_mapping_matrix_from", d_n, "cancel/util/data_vector", 1e-9 * (sd_n + FLOOR),
+                    "data_vector_via_transformed_mapping_matrix_from on the transformer's own output",
+                    transformed_mapping_matrix=natural.copy(), visibilities=vis.copy(), noise_map=noise.copy())
 
     # (d) inversions: natural route (function-list objects through the transformer) and a preloaded transformed matrix
     split = int(case["split"])
@@ -735,15 +791,234 @@ def body_cancel(case, ctx):
                   what="curvature_matrix vs Tr^T Wr Tr + Ti^T Wi Ti + eps (%s)" % route)
 
 
+# ---------------------------------------------------------------------------------------------
+# sub-check 6: state on Visibilities / VisibilitiesNoiseMap objects (in-place edits, derived objects)
+# ---------------------------------------------------------------------------------------------
+READS = ["amplitudes", "phases", "in_array", "ordered_1d", "in_grid", "scaled_maxima"]
+NOISE_READS = ["weight_list_ordered_1d", "in_array", "ordered_1d", "amplitudes", "phases"]
+
+
+@st.composite
+def _set_op(draw, k, positive=False):
+    kind = draw(st.sampled_from(["index", "index", "bool", "bool", "slice"]))
+    if positive:
+        v = [draw(gens.positives(0.1, 5.0)), draw(gens.positives(0.1, 5.0))]
+    else:
+        v = draw(st.sampled_from([[0.0, 0.0], None, None]))
+        if v is None:
+            v = [draw(gens.reals(-10, 10)), draw(gens.reals(-10, 10))]
+    op = {"op": "set", "kind": kind, "value": v}
+    if kind == "index":
+        op["i"] = draw(st.integers(0, k - 1))
+    elif kind == "bool":
+        bits = draw(st.lists(st.booleans(), min_size=k, max_size=k))
+        if not any(bits):
+            bits[draw(st.integers(0, k - 1))] = True
+        op["mask"] = bits
+    else:
+        a_ = draw(st.integers(0, k - 1))
+        op["a"], op["b"] = a_, draw(st.integers(a_ + 1, k))
+    return op
+
+
+@st.composite
+def state_case(draw):
+    """One Visibilities object (and one VisibilitiesNoiseMap) lives through a sequence: read cached / derived
+    quantities, image_from, in-place edits (integer index, boolean index, slice), image_from again, derived objects
+    (scalar multiple, copy, slice) that are edited in turn.  Every image_from result is compared with Re(A^H V) of
+    the values the object holds at that moment."""
+    c = draw(geometry(lo=1, hi=5))
+    k = len(c["uv"])
+    vals = draw(st.lists(gens.reals(-10, 10, allow_zero=False), min_size=2 * k, max_size=2 * k))
+    c["vis"] = [[vals[2 * i], vals[2 * i + 1]] for i in range(k)]
+    c["preload"] = draw(st.booleans())
+    ops = [{"op": "read", "what": w_} for w_ in draw(st.lists(st.sampled_from(READS), min_size=0, max_size=3))]
+    if draw(st.integers(0, 3)) > 0:
+        ops.append({"op": "image"})
+    ops += [draw(_set_op(k)) for _ in range(draw(st.integers(1, 2)))]
+    ops.append({"op": "image"})
+    cur_k = k
+    for _ in range(draw(st.integers(0, 5))):
+        kind = draw(st.sampled_from(["read", "image", "set", "set", "mul", "copy", "slice"]))
+        if kind == "read":
+            ops.append({"op": "read", "what": draw(st.sampled_from(READS))})
+        elif kind == "image":
+            ops.append({"op": "image"})
+        elif kind == "set":
+            ops.append(draw(_set_op(cur_k)))
+        elif kind == "mul":
+            ops.append({"op": "mul", "c": draw(st.sampled_from([2.0, -1.0, 0.5, 3.0]))})
+        elif kind == "copy":
+            ops.append({"op": "copy"})
+        elif cur_k >= 2:
+            a_ = draw(st.integers(0, cur_k - 1))
+            b_ = draw(st.integers(a_ + 1, cur_k))
+            ops.append({"op": "slice", "a": a_, "b": b_})
+            cur_k = b_ - a_
+    c["ops"] = ops
+    # inversion part: noise map (and data) edited in place between construction and use
+    n = sum(1 for r in c["mask"] for v in r if not v)
+    cols = draw(st.integers(1, 3))
+    mat = draw(st.lists(gens.reals(-3, 3), min_size=n * cols, max_size=n * cols))
+    c["matrix"] = [mat[i * cols:(i + 1) * cols] for i in range(n)]
+    nz = draw(st.lists(gens.positives(0.1, 5.0), min_size=2 * k, max_size=2 * k))
+    c["noise"] = [[nz[2 * i], nz[2 * i + 1]] for i in range(k)]
+    c["noise_reads"] = draw(st.lists(st.sampled_from(NOISE_READS), min_size=0, max_size=2))
+    c["first_inversion"] = draw(st.booleans())
+    c["noise_ops"] = [draw(_set_op(k, positive=True)) for _ in range(draw(st.integers(1, 2)))]
+    c["data_ops"] = [draw(_set_op(k)) for _ in range(draw(st.integers(0, 1)))]
+    c["noise_derive"] = draw(st.sampled_from(["none", "none", "mul", "copy-then-edit"]))
+    c["route"] = draw(st.sampled_from(["interface", "interface", "interferometer"]))
+    return c
+
+
+def _apply_set(obj, op):
+    v = complex(op["value"][0], op["value"][1])
+    if op["kind"] == "index":
+        obj[int(op["i"])] = v
+    elif op["kind"] == "bool":
+        obj[np.asarray(op["mask"], dtype=bool)] = v
+    else:
+        obj[int(op["a"]):int(op["b"])] = v
+
+
+def body_state(case, ctx):
+    import autoarray as aa
+    from autoarray.inversion.inversion.interferometer.mapping import InversionInterferometerMapping
+    m, uv, mask, grid_ref, a, _ = _setup(case, ctx)
+    k = len(uv)
+    preload = bool(case["preload"])
+    ctx.label("path:%s" % ("preload" if preload else "direct"))
+    transformers = {}
+
+    def transformer_for(sel):
+        key = tuple(sel)
+        if key not in transformers:
+            transformers[key] = aa.TransformerDFT(uv_wavelengths=uv[list(sel)].copy(), real_space_mask=mask, preload_transform=preload)
+        return transformers[key]
+
+    def check_image(obj, sel, key, what):
+        cur = np.array(obj, dtype=complex).copy()     # the values the object holds now
+        im = transformer_for(sel).image_from(visibilities=obj)
+        s_ = float((np.abs(cur.real) + np.abs(cur.imag)).sum()) + FLOOR
+        ctx.close(np.asarray(im.slim), dft.adjoint_real(a[list(sel)], cur), key, atol=1e-9 * s_,
+                  what="image_from(V) vs Re(A^H V_current), %s" % what)
+
+    # ---- part A: a Visibilities object through reads, in-place edits and derivations -------------------------------
+    vis0 = np.asarray([complex(r, i) for r, i in case["vis"]], dtype=complex)
+    obj, sel, origin = aa.Visibilities(visibilities=vis0.copy()), list(range(k)), "fresh"
+    objects = [(obj, sel, "original")]
+    read_any = imaged_before_edit = edited = False
+    state = "fresh"
+    for op in case["ops"]:
+        if op["op"] == "read":
+            getattr(obj, op["what"])
+            read_any = True
+            ctx.label("read:%s" % op["what"])
+        elif op["op"] == "image":
+            check_image(obj, sel, "vis-state/image_from/%s/%s" % (origin, state), "object %s, %s" % (origin, state))
+            if state == "fresh":
+                imaged_before_edit = True
+        elif op["op"] == "set":
+            before = np.array(obj, dtype=complex).copy()
+            _apply_set(obj, op)
+            changed = not np.array_equal(before, np.array(obj, dtype=complex))
+            ctx.label("edit:%s" % op["kind"], "edit:changed-values" if changed else "edit:no-change")
+            if changed:
+                state, edited = "after-in-place-edit", True
+        elif op["op"] == "mul":
+            obj = obj * float(op["c"])
+            origin, state = "derived-mul", "fresh"
+            objects.append((obj, sel, origin))
+        elif op["op"] == "copy":
+            obj = obj.copy()
+            origin, state = "derived-copy", "fresh"
+            objects.append((obj, sel, origin))
+        elif op["op"] == "slice":
+            obj = obj[int(op["a"]):int(op["b"])]
+            sel = sel[int(op["a"]):int(op["b"])]
+            origin, state = "derived-slice", "fresh"
+            objects.append((obj, sel, origin))
+    ctx.label("objects:%d" % len(objects) if len(objects) <= 2 else "objects:>=3")
+    for o in {o_[2] for o_ in objects}:
+        ctx.label("object:%s" % o)
+    # every object that was created, at the end, against the values it holds at the end
+    for o, sl, org in objects:
+        check_image(o, sl, "vis-state/image_from/%s/final" % org, "object %s at the end of the sequence" % org)
+    ctx.nt(edited and (read_any or imaged_before_edit) and any(u != 0.0 or v != 0.0 for u, v in uv))
+    if read_any or imaged_before_edit:
+        ctx.label("sequence:read-or-image-before-edit")
+
+    # ---- part B: noise map / data edited in place, then used by an inversion ----------------------------------------
+    mm = np.asarray(case["matrix"], dtype=float)
+    noise0 = np.asarray([complex(r, i) for r, i in case["noise"]], dtype=complex)
+    data = aa.Visibilities(visibilities=vis0.copy())
+    nmap = aa.VisibilitiesNoiseMap(visibilities=noise0.copy())
+    route = case["route"]
+    ctx.label("route:%s" % route, "noise-derive:%s" % case["noise_derive"])
+    t_ref = a @ mm
+    tol_t = 1e-9 * (float(np.abs(mm).sum(axis=0).max(initial=0.0)) + FLOOR)
+    noreg = list(range(mm.shape[1]))
+
+    def inversion(d_obj, n_obj, ds=None):
+        objs = [scene.build_linear_obj({"type": "func", "matrix": mm.tolist(), "reg": None}, mask)[0]]
+        if ds is None:
+            t = aa.TransformerDFT(uv_wavelengths=uv.copy(), real_space_mask=mask, preload_transform=preload)
+            ds = aa.DatasetInterface(data=d_obj, noise_map=n_obj, transformer=t)
+            return InversionInterferometerMapping(dataset=ds, linear_obj_list=objs, settings=_settings(aa))
+        return aa.Inversion(dataset=ds, linear_obj_list=objs, settings=_settings(aa))
+
+    def check_inversion(inv, d_obj, n_obj, tag):
+        v_cur = np.array(d_obj, dtype=complex).copy()
+        s_cur = np.array(n_obj, dtype=complex).copy()
+        t_got = np.asarray(inv.operated_mapping_matrix)
+        ctx.close(t_got, t_ref, "vis-state/inversion/operated_mapping_matrix", atol=tol_t, what="operated_mapping_matrix vs A M")
+        d1, f1, sd, sf = dft.normal_equations(t_ref, v_cur, s_cur, noreg=noreg, eps=EPS)
+        ctx.close(np.array(inv.data_vector, dtype=float), d1, "vis-state/inversion/%s/data_vector" % tag, atol=1e-8 * (sd + FLOOR),
+                  what="data_vector vs Gram products with the values the data / noise objects hold now (%s, %s)" % (route, tag))
+        ctx.close(np.array(inv.curvature_matrix, dtype=float), f1, "vis-state/inversion/%s/curvature_matrix" % tag,
+                  atol=1e-8 * (sf + FLOOR),
+                  what="curvature_matrix vs Gram products with the values the noise object holds now (%s, %s)" % (route, tag))
+
+    ds = None
+    if route == "interferometer":
+        ds = aa.Interferometer(data=data, noise_map=nmap, uv_wavelengths=uv.copy(), real_space_mask=mask,
+                               transformer_class=aa.TransformerDFT)
+        data, nmap = ds.data, ds.noise_map
+    for w_ in case["noise_reads"]:
+        getattr(nmap, w_)
+        ctx.label("noise-read:%s" % w_)
+    if case["first_inversion"]:
+        check_inversion(inversion(data, nmap, ds), data, nmap, "before-edit")
+    for op in case["noise_ops"]:
+        _apply_set(nmap, op)
+        ctx.label("noise-edit:%s" % op["kind"])
+    for op in case["data_ops"]:
+        _apply_set(data, op)
+        ctx.label("data-edit:%s" % op["kind"])
+    check_inversion(inversion(data, nmap, ds), data, nmap, "after-in-place-edit")
+    if case["noise_derive"] != "none" and route == "interface":
+        if case["noise_derive"] == "mul":
+            n2 = nmap * 2.0
+        else:
+            n2 = nmap.copy()
+            _apply_set(n2, case["noise_ops"][0] if case["noise_ops"][0]["kind"] != "index"
+                       else dict(case["noise_ops"][0], i=(int(case["noise_ops"][0]["i"]) + 1) % k, value=[7.0, 0.3]))
+        check_inversion(inversion(data, n2), data, n2, "derived-noise-%s" % case["noise_derive"])
+        check_inversion(inversion(data, nmap), data, nmap, "original-noise-after-derivation")
+
+
 SUBCHECKS = [
     SubCheck("transform", body_transform, strategy=transform_case(),
-             examples={"quick": 2000, "thorough": 24000}, shards={"quick": 4, "thorough": 16}),
+             examples={"quick": 1800, "thorough": 24000}, shards={"quick": 3, "thorough": 16}),
     SubCheck("matrix", body_matrix, strategy=matrix_case(),
              examples={"quick": 1500, "thorough": 20000}, shards={"quick": 3, "thorough": 16}),
     SubCheck("inversion", body_inversion, strategy=inversion_case(),
              examples={"quick": 1200, "thorough": 12000}, shards={"quick": 3, "thorough": 16}),
     SubCheck("family", body_family, strategy=family_case(),
-             examples={"quick": 900, "thorough": 8000}, shards={"quick": 3, "thorough": 16}),
+             examples={"quick": 700, "thorough": 8000}, shards={"quick": 2, "thorough": 16}),
     SubCheck("cancel", body_cancel, strategy=cancel_case(),
+             examples={"quick": 700, "thorough": 8000}, shards={"quick": 2, "thorough": 16}),
+    SubCheck("state", body_state, strategy=state_case(),
              examples={"quick": 900, "thorough": 8000}, shards={"quick": 3, "thorough": 16}),
 ]
